@@ -680,6 +680,22 @@ def repr_rule(ctx, P):
             ks.add(int(mm.group(1) or mm.group(2)) if mm else None)
     nf = [st.constval(s["rhs"]) for s in paths.stores(st) if s["path"] == "cmn->nframe" and s["rhs"] is not None]
     ctx.check(r, len(ks) == 1 and None not in ks and nf and set(nf) == ks and min(ks) > 0, key(st, "sum-nframe"), st.where(st.root), "import sets sum = mean * %s but nframe = %s: the next update would compute a different mean from what was imported" % (sorted(map(str, ks)), nf))
+    # the text follows the mean: wherever the mean is stored, the text is rebuilt before the function returns
+    # (the export hands out the text, so a mean that moved without it is exported stale and a re-import
+    # overwrites the adapted mean); the facts are those of the release build, so a rebuild that only exists
+    # as the argument of a log macro compiled out there does not count
+    nmean = 0
+    for f in [x for u_ in ("cmn.c", "cmn_live.c") for x in P.functions(u_) if x.file.endswith(u_)]:
+        if f.name == "cmn_update_repr":
+            continue
+        ups = set(f.calls("cmn_update_repr"))
+        for s_ in paths.stores(f):
+            if s_["kind"] == "Subscript" and re.search(r"(->|\.)cmn_mean\[", s_["path"]):
+                nmean += 1
+                ctx.touch(f)
+                ctx.check(r, paths.must_pass(f, s_["node"], lambda e: e in ups), key(f, "text-follows-mean@%d" % f.line(s_["node"])), f.where(s_["node"]), "%s stores the mean here and can return without rebuilding its text (cmn_update_repr): decoder_get_cmn then exports the old mean, and importing that text again overwrites the adapted one" % f.name)
+    if nmean < 4:
+        ctx.missing("stores of the channel mean not found (%d)" % nmean)
 
 
 def cache_rule(ctx, P):
